@@ -361,3 +361,67 @@ Proof. unfold bucket_expire. rewrite filter_In. intros [_ H]. lia. Qed.
 
 Lemma expire_keeps ma now b p : In p b -> now - p_time p <= ma -> In p (bucket_expire ma now b).
 Proof. unfold bucket_expire. rewrite filter_In. intros H1 H2. split; [exact H1|]. lia. Qed.
+
+(* ---- lift to every reachable state of the per-call machine ---- *)
+Definition ev_wf (e : mevent) : Prop :=
+  match e with SetBounds s => wf_sys s | _ => True end.
+
+Lemma mstep_wf ma st e : wf_sys (m_sys st) -> ev_wf e -> wf_sys (m_sys (fst (mstep ma st e))).
+Proof.
+  intros Hwf He. destruct e as [p|now|s]; cbn.
+  - destruct (negb (m_created st) && no_bounds (m_sys st)); cbn; exact Hwf.
+  - exact Hwf.
+  - exact He.
+Qed.
+
+(* every target the machine ever reports lies in the envelope of the bounds in force at
+   the moment of the report, whatever happened before *)
+Lemma mrun_envelope ma : forall h st n t,
+  wf_sys (m_sys st) -> Forall ev_wf h ->
+  nth_error (mrun ma st h) n = Some (Some t) ->
+  in_envelope (m_sys (mfinal ma st (firstn (S n) h))) t.
+Proof.
+  induction h as [|e h IH]; intros st n t Hwf Hall Hn.
+  - destruct n; discriminate Hn.
+  - inversion Hall as [|e' h' He Hh]; subst e' h'.
+    pose proof (mstep_wf ma st e Hwf He) as Hwf'.
+    pose proof (mstep_output ma st e) as Hout.
+    cbn [mrun] in Hn. cbn [firstn mfinal].
+    destruct (mstep ma st e) as [st' o] eqn:E. cbn [fst snd] in *.
+    destruct n as [|n].
+    + cbn in Hn. injection Hn as Ho. subst o.
+      cbn [firstn mfinal]. rewrite (Hout t eq_refl).
+      apply calc_target_envelope. exact Hwf'.
+    + cbn [nth_error] in Hn. apply IH; assumption.
+Qed.
+
+(* the machine's bucket is the bucket of the accepted events: once created, the machine
+   bucket follows bucket_step exactly *)
+Lemma mfinal_created ma : forall h st, m_created st = true ->
+  m_created (mfinal ma st h) = true /\
+  m_bucket (mfinal ma st h) = fold_left (bucket_step ma) h (m_bucket st).
+Proof.
+  induction h as [|e h IH]; intros st Hc; [split; [exact Hc|reflexivity]|].
+  cbn [mfinal fold_left].
+  assert (Hc' : m_created (fst (mstep ma st e)) = true).
+  { destruct e as [p|now|s]; cbn; rewrite ?Hc; cbn; try exact Hc; reflexivity. }
+  destruct (IH _ Hc') as [H1 H2]. split; [exact H1|].
+  rewrite H2. f_equal. rewrite mstep_bucket.
+  destruct e as [p|now|s]; rewrite ?Hc; reflexivity.
+Qed.
+
+(* history-freedom at the level of the machine: two arbitrary event histories that leave
+   the same live proposals and the same bounds in force give the same target *)
+Lemma machine_history_free ma s0 h1 h2 :
+  let st := mkM true [] s0 in
+  (forall p, live ma h1 p <-> live ma h2 p) ->
+  m_sys (mfinal ma st h1) = m_sys (mfinal ma st h2) ->
+  calc_target (m_sys (mfinal ma st h1)) (m_bucket (mfinal ma st h1)) =
+  calc_target (m_sys (mfinal ma st h2)) (m_bucket (mfinal ma st h2)).
+Proof.
+  intros st Hl Hs.
+  destruct (mfinal_created ma h1 st eq_refl) as [_ B1].
+  destruct (mfinal_created ma h2 st eq_refl) as [_ B2].
+  rewrite B1, B2, Hs. cbn [st m_bucket].
+  exact (history_free ma (m_sys (mfinal ma st h2)) h1 h2 Hl).
+Qed.
